@@ -9,15 +9,22 @@ from functools import lru_cache
 import core
 from core import fseq, fseqs, fbool, pseq, pseqs, guarded
 import pinlib
+import used
+import past
 from pinlib import DIRS, QUADS, trie_words, bits_to_str, in_m, m_words, m_word_perm, contains_any
 
 PROP = "C15"
 RULE = ("pws/decode/factor/sptom/mtosp/strict: every pin word / permutation up to the stated length; nfabits: every pin "
         "word of length <= K against all direction words of length <= D; accbits(d): every permutation of length <= 4 "
-        "(thorough 5) against all direction words of length <= 8 (model NFA semantics up to 7, model DFA pipeline up to 8); "
-        "sembits: every basis of <= 2 permutations of length <= 4 against all words of the pin-sequence language of "
-        "length 2..8 with the containment oracle; canon*: canonical minimal automata (complete language comparison); "
-        "finpin*: all bases of <= 2 permutations of length <= 4 plus random larger ones; "
+        "(thorough 5) against all direction words of length <= 8 (model NFA semantics up to 7, model DFA pipeline up to 8; "
+        "quick: the permutations of length 4 on a rotating quarter of the two-letter prefix blocks); "
+        "sembits: every basis of <= 2 permutations of length <= 4 (quick: every single one and a sample of 64 pairs) "
+        "against all words of the pin-sequence language of length 2..8 with the containment oracle, the other lines of "
+        "a basis (finpin*, canon*, accs) grouped with it; canon*: canonical minimal automata (complete language "
+        "comparison); finpin*: those bases plus random triples/quadruples and bases with several elements of length 5 "
+        "(one group with length 6), alone and mixed with short ones; long pin words (<= 33) and long words (<= 401); "
+        "a third of the bases built from Perm objects with a past, half of the automata requested through a list "
+        "object that held another basis in an earlier call; "
         "non-trivial = the basis / pin word is non-empty and at least one compared word is accepted and one rejected "
         "(bit vectors), resp. the word is non-empty (single words); distinct = distinct op lines")
 ASSUMPTIONS = [
@@ -85,7 +92,21 @@ def fwords(ws):
 
 
 def basis_of(s):
-    return tuple(Perm(p) for p in pseqs(s))
+    """the basis of a line; a deterministic third of the bases is built from Perm objects with a past (used /
+    derived from a used object through another API route, past.mkperm)"""
+    ps = pseqs(s)
+    if used.sel("basis", [s], 3) and all(used.is_perm(p) for p in ps):
+        return tuple(past.mkperm(p, i) for i, p in enumerate(ps))
+    return tuple(Perm(p) for p in ps)
+
+
+def _aliased(fn, b, key):
+    """fn(list of the basis): for a deterministic half of the bases the list handed over is a list object that
+    held ANOTHER basis (its first element only / nothing) in an earlier call of fn and was then
+    changed in place (argument aliasing, used.grown_list); otherwise a fresh list"""
+    if b and used.sel("alias", [key], 2):
+        return used.grown_list(fn, b, first=(b[:1] if len(b) > 1 else []))
+    return fn(list(b))
 
 
 # ----------------------------------------------------------------------------- implementation side
@@ -93,11 +114,11 @@ def basis_of(s):
 def _dfa_basis(bs, mode):
     b = list(basis_of(bs))
     if mode == "db":
-        return PinWords.make_dfa_for_basis(b, use_db=True)
+        return _aliased(lambda l: PinWords.make_dfa_for_basis(l, use_db=True), b, bs)
     if mode == "perm":
         assert len(b) == 1
         return PinWords.make_dfa_for_perm(b[0])
-    return PinWords.make_dfa_for_basis(b, use_db=False)
+    return _aliased(lambda l: PinWords.make_dfa_for_basis(l, use_db=False), b, bs)
 
 
 @lru_cache(maxsize=4096)
@@ -171,7 +192,7 @@ def impl(op, a):
             return bits_to_str(dfa.accepts_input(w) for w in m_words(int(a[1])))
         return guarded(f)
     if op == "finpin":
-        return guarded(lambda: fbool(PinWords.has_finite_pinperms(list(basis_of(a[0])))))
+        return guarded(lambda: fbool(_aliased(PinWords.has_finite_pinperms, list(basis_of(a[0])), "f" + a[0])))
     if op == "finpindfa":
         return guarded(lambda: fbool(PinWords.has_finite_pinperms(list(basis_of(a[0])), dfa=_dfa_basis(a[0], "fresh"))))
     if op == "finpindb":
@@ -215,6 +236,8 @@ def oracle(op, a):
         return None
     if op == "accs":
         ws = [pword(w) for w in a[1].split(";")]
+        if any(len(w) > 40 for w in ws):
+            return None             # brute-force containment in a long permutation is out of reach: model comparison only
         if all(len(w) >= 2 and in_m(w) for w in ws) and _all_perms(pseqs(a[0])):
             return bits_to_str(contains_any(m_word_perm(w), pseqs(a[0])) for w in ws)
         return None
@@ -368,9 +391,11 @@ def run(ctx):
     K, D = (4, 6) if quick else (5, 7)
     ctx.exhaustive = True
     ctx.exhaustive_bound = ("pin words <= %d x all direction words <= %d (nfabits); permutations <= %d x all direction words "
-                            "<= 8 (accbits to 7 / accbitsd to 8); bases of <= 2 permutations of length <= 4 x all words of "
-                            "L(M) of length 2..8 (sembits) ; finpin on all single permutations <= 4 and %s pairs; canonical automata for all permutations <= %d and "
-                            "shipped dfa_db files" % (K, D, PL, "120 random" if quick else "all", PL))
+                            "<= 8 (accbits to 7 / accbitsd to 8%s); bases of %s of length <= 4 x all words of "
+                            "L(M) of length 2..8 (sembits); finpin on all single permutations <= 4 and %s pairs; canonical automata for all permutations <= %d and "
+                            "shipped dfa_db files" % (K, D, PL, "; quick: length-4 permutations on 4 of the 16 two-letter prefix blocks each" if quick else "",
+                                                      "1 permutation and a sample of 64 pairs" if quick else "<= 2 permutations",
+                                                      "about 70 sampled" if quick else "all", PL))
     # -- corpus
     ctx.compare("corpus", [
         "pws 0,1", "pws _", "pws 0", "pws 1,3,0,2", "decode 3DL2UR", "decode 14L2UR", "factor 14L2UR", "sptom 1R",
@@ -418,7 +443,11 @@ def run(ctx):
         for u in pinlib.pin_language(n):
             add("nfabits", "nfabits %s _ %d" % (fword(u), D))
     # every permutation: NFA semantics up to length 7, DFA pipeline up to length 8, split by 2-letter prefixes
+    # (quick tier: all 16 prefixes for the permutations of length <= 3; for those of length 4 the two whole-language
+    #  lines to depth 1 plus 4 of the 16 prefix blocks, rotating with the permutation's index so that every prefix
+    #  is met by a quarter of them; the thorough tier keeps everything)
     pref2 = [x + y for x in DIRS for y in DIRS]
+    pidx = 0
     for n in range(0, PL + 1):
         for p in perms(n):
             if n == 5 and rng.random() > 0.25:
@@ -426,7 +455,10 @@ def run(ctx):
             fp = fseq(p)
             add("accbits", "accbits %s _ 1" % fp)
             add("accbits", "accbitsd %s _ 1" % fp, True)
-            for x in pref2:
+            pidx += 1
+            for j, x in enumerate(pref2):
+                if quick and n >= 4 and (j + pidx) % 4 != 0:
+                    continue
                 add("accbits", "accbits %s %s %d" % (fp, x, 5), True)
                 add("accbits", "accbitsd %s %s %d" % (fp, x, 6), True)
     # single words: pin words of length <= 3 against direction words of length <= 4
@@ -441,29 +473,85 @@ def run(ctx):
         u = rand_pinword(rng, rng.randrange(1, 9))
         w = planted_word(rng, u) if rng.random() < 0.8 else rand_word(rng, rng.randrange(0, 14))
         add("nfa", "nfa %s %s" % (fword(u), fword(w)))
-    # semantic statement on the pin-sequence language: bases of <= 2 permutations of length <= 4, all of L(M) <= 8
+    # longer pin words / longer direction words (the sizes the streams above never reach): factors planted at the
+    # very beginning / the very end of the direction word, several long factors, numerals only
+    for _ in range(300 if quick else 3000):
+        u = rand_pinword(rng, rng.choice([9, 10, 11, 12, 16, 21, 33]))
+        if rng.random() < 0.2:
+            u = "".join(rng.choice(QUADS) for _ in range(rng.choice([9, 12, 17])))
+        w = planted_word(rng, u)
+        pad = rand_word(rng, rng.choice([0, 0, 20, 40]))
+        w = rng.choice([w, pad + w, w + pad, w[1:], w[:-1]])
+        add("nfa", "nfa %s %s" % (fword(u), fword(w)))
+    # the automaton of a basis.  One UNIT per basis: its lines stay together, so a worker builds the automaton of the
+    # basis once (the harness memoises it per worker) for the semantic bit vector, the canonical form, the word
+    # samples and the finiteness test with a supplied automaton; `finpin` / `finpindb` build their own inside.
+    # Bases: every single permutation of length <= 4, (quick) a deterministic sample of 64 of the 528 pairs resp.
+    # (thorough) all pairs, random triples and quadruples.
     small = [p for n in range(1, 5) for p in perms(n)]
-    bases = [(p,) for p in small] + list(itertools.combinations(small, 2))
-    for b in bases:
-        add("sembits", "sembits %s 8" % fseqs(b))
-    for b in rng.sample(bases[len(small):], 15):
-        add("sembits", "sembits %s 8" % fseqs(b[::-1]))
-    for _ in range(60 if quick else 600):
-        add("sembits", "sembits %s 8" % fseqs(tuple(rng.sample(small, 3))))
-    # longer words of L(M) (and a few outside) against random bases, many words per basis
-    for _ in range(100 if quick else 600):
-        b = tuple(rng.sample(small, rng.randrange(1, 4)))
-        ws = [rand_word(rng, rng.randrange(2, 12), alternating=rng.random() < 0.9) for _ in range(24)]
-        add("accs", "accs %s %s" % (fseqs(b), ";".join(ws)))
-        add("acc", "acc %s %s" % (fseqs(b), ws[0]), True)
-    # finiteness of the difference with M
-    for b in (bases[:len(small)] + rng.sample(bases[len(small):], 120)) if quick else bases:
-        add("finpin", "finpin " + fseqs(b))
-    for _ in range(60 if quick else 1500):
-        add("finpin", "finpin " + fseqs(tuple(rng.sample(small, rng.randrange(3, 5)))))
-    for b in rng.sample(bases, 40 if quick else 561):
-        add("finpin", "finpindfa " + fseqs(b))
-        add("finpin", "finpindb " + fseqs(b))
+    singles = [(p,) for p in small]
+    pairs = list(itertools.combinations(small, 2))
+    bases = singles + pairs
+    pool = singles + (rng.sample(pairs, 64) if quick else pairs)
+    pool += [tuple(rng.sample(small, 3)) for _ in range(24 if quick else 600)]
+    pool += [tuple(rng.sample(small, 4)) for _ in range(10 if quick else 300)]
+    for b in pool:
+        fb = fseqs(b)
+        add("sembits", "sembits %s 8" % fb)
+        if len(b) == 1 or not quick or rng.random() < 0.45:
+            add("finpin", "finpin " + fb, True)
+        if rng.random() < 0.2:
+            add("finpin", "finpindfa " + fb, True)
+            add("finpin", "finpindb " + fb, True)
+        if len(b) > 1 and rng.random() < 0.3:
+            add("canon", "canon " + fb, True)
+            if rng.random() < 0.4:
+                add("canon", "canondb " + fb, True)
+        if rng.random() < 0.4:
+            # longer words of L(M) (and a few outside), many words per basis
+            ws = [rand_word(rng, rng.randrange(2, 12), alternating=rng.random() < 0.9) for _ in range(24)]
+            add("accs", "accs %s %s" % (fb, ";".join(ws)), True)
+            add("acc", "acc %s %s" % (fb, ws[0]), True)
+        if rng.random() < 0.05:
+            ws = [rand_word(rng, rng.choice([21, 33, 40, 64, 70, 200, 401]), alternating=True) for _ in range(4)]
+            add("accs", "accs %s %s" % (fb, ";".join(ws)), True)
+        if len(b) > 1 and rng.random() < 0.08:
+            add("sembits", "sembits %s 8" % fseqs(b[::-1]), True)
+    # bases with LONG elements (length 5; one unit with length 6): several long elements together (all eight
+    # symmetric images of one, both monotone ones), long elements mixed with short ones.  A worker that meets
+    # length 5 (6) builds the library's pin-word table of that length once (1 s resp. 9 s): few units, kept together.
+    def sym8(p):
+        out = []
+        for q in (tuple(p), tuple(sorted(range(len(p)), key=lambda i: p[i]))):
+            for r in (q, q[::-1]):
+                for t in (r, tuple(len(r) - 1 - v for v in r)):
+                    if t not in out:
+                        out.append(t)
+        return out
+    mono5 = (tuple(range(5)), tuple(range(4, -1, -1)))
+    long_units = []
+    for _ in range(3 if quick else 40):
+        u = []
+        p5 = rand_perm(rng, 5)
+        imgs = sym8(p5)
+        cands = [tuple(imgs), tuple(imgs[:2]), (p5, rand_perm(rng, 5)), (p5, rng.choice(small[9:])), mono5,
+                 (rng.choice(small[3:9]), rand_perm(rng, 5), rand_perm(rng, 5)), (mono5[0], rng.choice(small[3:])),
+                 (rng.choice(mono5), rand_perm(rng, 5), rand_perm(rng, 4))]
+        for b in (cands if not quick else cands[:1] + rng.sample(cands[1:], 4)):
+            u.append("finpin " + fseqs(b))
+            if rng.random() < 0.5:
+                u.append("sembits %s 8" % fseqs(b))
+            if rng.random() < 0.3:
+                u.append("finpindfa " + fseqs(b))
+                u.append("canon " + fseqs(b))
+        long_units.append(u)
+    p6 = rand_perm(rng, 6)
+    long_units.append(["finpin " + fseqs((rng.choice(small[3:9]), tuple(range(5, -1, -1)))), "finpin " + fseqs((p6, rand_perm(rng, 5))),
+                       "sembits %s 8" % fseq(p6)]
+                      + ([] if quick else ["finpin " + fseqs(tuple(sym8(p6))), "finpin " + fseqs((tuple(range(6)), tuple(range(5, -1, -1))))]))
+    for u in long_units:
+        units.append(u)
+        count["long-elements"] = count.get("long-elements", 0) + len(u)
     # complete language comparison through canonical minimal automata; shipped database
     add("canon", "mcanon")
     add("canon", "canon -")
@@ -486,11 +574,6 @@ def run(ctx):
     for p in shipped:
         add("canon", "dbcanon " + fseq(p))
     ctx.extra["shipped_db_files_checked"] = len(shipped)
-    for _ in range(50 if quick else 600):
-        b = tuple(rng.sample(small, rng.randrange(2, 4)))
-        add("canon", "canon " + fseqs(b))
-        if rng.random() < 0.5:
-            add("canon", "canondb " + fseqs(b))
     ctx.extra["automata_stream_composition"] = count
     rng.shuffle(units)
     lines = []
